@@ -417,6 +417,36 @@ def check_wrappers(ctx):
         g.distance_pairwise(p2, p1, out=out.T if n1 != n2 else np.empty((n2, n1)))  # a second call must not disturb the first result
         if not np.array_equal(ref, g.distance_pairwise(p1, p2)):
             ctx.violate("distance_pairwise is not repeatable", {"op": "distance_repeat"}, {"kind": "distance_out"})
+        # a preallocated table of another precision than the points (a float32 table filled from float64 points and the other
+        # way round): after the call the table the caller passed holds the distances
+        for odt, pdt in ((np.float32, np.float64), (np.float64, np.float32)):
+            q1, q2 = g.Points(p1.coords.astype(pdt)), g.Points(p2.coords.astype(pdt))
+            tbl = np.full((n1, n2), -7.0, dtype=odt)
+            try:
+                g.distance_pairwise(q1, q2, out=tbl)
+            except Exception as e:
+                ctx.count("distance_out_other_dtype:refused")
+                continue    # refusing the combination would be acceptable; leaving the table unwritten is not
+            ctx.count("distance_out_other_dtype")
+            if not np.allclose(tbl, exp, rtol=3e-6, atol=1e-6):
+                ctx.violate(f"distance_pairwise(out=<{np.dtype(odt).name} table>) with {np.dtype(pdt).name} points returned without an error but the table the caller passed "
+                            f"does not hold the distances (max error {np.abs(tbl - exp).max():.3g})", {"op": "distance_out_dtype", "out": np.dtype(odt).name, "points": np.dtype(pdt).name},
+                            {"kind": "distance_out"})
+        # the same positions held as integers / single precision: same conversions and rotations (about a non-lattice centre)
+        ci = rng.integers(-9, 10, size=(4, 3))
+        centre_ = ci.mean(axis=0) + np.array([0.5, -0.25, 0.125])
+        for cdt in (np.int64, np.int32, np.float32):
+            for nm_, f_ in (("rotate", lambda cc: g.rotate(cc, B, centre_)), ("to_gcs", lambda cc: g.to_gcs(cc, B, o)), ("from_gcs", lambda cc: g.from_gcs(cc, B, o)),
+                            ("Points.rotate", lambda cc: g.Points(cc).rotate(B, centre_).coords), ("Points.translate", lambda cc: g.Points(cc).translate(centre_).coords)):
+                ctx.count("coords_container:" + np.dtype(cdt).name)
+                try:
+                    a_, b_ = f_(ci.astype(cdt)), f_(ci.astype(np.float64))
+                except Exception as e:
+                    ctx.violate(f"{nm_} raised {type(e).__name__} for coordinates held as {np.dtype(cdt).name}", {"op": "coords_container", "fn": nm_}, {"kind": "container"})
+                    continue
+                if not np.allclose(a_, b_, rtol=0, atol=(2e-5 if cdt is np.float32 else 1e-12)):
+                    ctx.violate(f"{nm_} gives other positions (max difference {np.abs(np.asarray(a_, float) - b_).max():.3g}) when the same coordinates are held as {np.dtype(cdt).name}",
+                                {"op": "coords_container", "fn": nm_, "coords": ci.tolist(), "centre": centre_.tolist()}, {"kind": "container"})
         d32 = g.distance_pairwise(p1, p2, dtype=np.float32)
         if d32.dtype != np.float32 or not np.allclose(d32, exp, rtol=2e-6, atol=1e-6):
             ctx.violate("distance_pairwise(dtype=float32) is not the Euclidean distance to single precision", {"op": "distance_f32"}, {"kind": "distance"})
